@@ -54,9 +54,11 @@ class World(object):
         self.names = names
         self.filts = ['f%d' % j for j in range(nb)]
         self.wavs = fw.band_wavelengths(nb)
-        fw.build_indep_package(self.dir, names, grid, self.filts, self.wavs)
-        self.law = fw.make_extinction(K, self.wavs, variety=zlib.crc32(repr((names, grid, K, ulo, uhi)).encode()))
-        self.fitter = fw.make_fitter(self.dir, self.filts, self.law, ulo, uhi)
+        h = zlib.crc32(repr((names, grid, K, ulo, uhi)).encode())
+        self.version = 2 if (h // 7) % 3 == 0 else 1          # a third of the worlds are cube-format packages
+        fw.build_indep_package(self.dir, names, grid, self.filts, self.wavs, version=self.version)
+        self.law = fw.make_extinction(K, self.wavs, variety=h)
+        self.fitter = fw.make_fitter(self.dir, self.filts, self.law, ulo, uhi, use_memmap=False)
 
     def fit(self, source):
         return self.fitter.fit(source)
